@@ -4,10 +4,13 @@ CONSTANTS
   QosOf <- Q_212
   MaxFaults = 2
   SessionLoss = TRUE
+  ClearAfterRequeue = TRUE
+  KeepOldWaiter = FALSE
   LossyWrites = FALSE
 INVARIANT Qos2AtMostOnce
 INVARIANT CompletedIsDelivered
 INVARIANT NoPubrelUnanswered
 INVARIANT NothingStuck
+INVARIANT OnlyOwnRelease
 VIEW NoHist
 CHECK_DEADLOCK FALSE
